@@ -18,11 +18,13 @@ def run_execution(binary, seed, idx):
         # the only rollover family without a second writer / sealing proposer / lagging follower: fully armed
         cfg.update(nodes=1, producers=1, monitor=False)
         nodes = 1
+        # half of them without the 100 ms lease loop: every lease refresh then happens inside a call (forward_append, ensure_topic)
+        cfg['lease_loop'] = rng.random() < 0.5
     d = fresh_dir('dwx')
     out = {'cfg': cfg, 'hist': [], 'events': [], 'nodes': None, 'error': None}
     try:
         cl = dw.Cluster(binary, d, nodes=nodes, threshold=cfg['threshold'], delay_seed=cfg['delay_seed'], lag_us=cfg['lag_us'], backend=cfg['backend'],
-                        monitor_ms=cfg['monitor_ms'], monitor=cfg['monitor'])
+                        monitor_ms=cfg['monitor_ms'], monitor=cfg['monitor'], lease_loop=cfg.get('lease_loop', True))
     except Exception as e:
         out['error'] = 'cluster start: %r' % e
         rmdir(d)
@@ -107,6 +109,9 @@ def run_execution(binary, seed, idx):
         # before the quiescent period began are probed (the monitor may still seal the open segment once after the clients stopped)
         cl.ctl('sync')
         out['fence'] = cl.ctl('fence_probe', topic=topic, min_age=2 if cfg['monitor'] else 1).get('probes', [])
+        if nodes == 1 and not cfg['monitor'] and not cfg.get('lease_loop', True) and cfg['threshold'] < 1000:
+            # no refresher but the calls themselves: seal the open segment now and probe its key right away
+            out['fence_fresh'] = cl.ctl('fence_probe_fresh', topic=topic, max_appends=cfg['threshold'] + 2).get('probe')
         return out
     except Exception as e:
         out['error'] = 'execution: %r' % e
@@ -206,5 +211,9 @@ def check_events(ex):
     for p in probes:
         if p.get('accepted'):
             F.append({'cls': 'sealed-segment-write-accepted-at-quiescence', 'detail': {k: p.get(k) for k in ('node', 'key', 'current_segment', 'assigned_to', 'resp')}})
+    fresh = ex.get('fence_fresh') or {}
+    if fresh.get('accepted'):
+        F.append({'cls': 'sealed-segment-write-accepted-right-after-seal', 'detail': {k: fresh.get(k) for k in ('node', 'key', 'sealed_segment', 'current_segment', 'new_leader', 'fillers', 'resp')}})
     return F, {'writes': writes, 'applied_rollovers': len(sealed), 'events': len(ex['events']), 'late_writes': late, 'fence_probes': len(probes),
+               'fence_fresh_probes': 1 if 'accepted' in fresh else 0, 'fence_fresh_refused': 1 if fresh.get('accepted') is False else 0,
                'fence_probes_rejected': sum(1 for p in probes if not p.get('accepted'))}
